@@ -8,6 +8,8 @@ An operand specification is JSON-able:
   {"t":"scalar","q":Q,"x":X}              Scalar.CreateWithQuantity(ObtainQuantity(OrderedDict(Q)), x)
   {"t":"array","q":Q,"kind":K,"xs":[X..]} Array.CreateWithQuantity(.., list | tuple | ndarray)
   {"t":"junk","w":W}                      W in str none list
+  {"t":"array0","q":Q,"x":X}              Array.CreateWithQuantity(.., values=<the bare number X>)
+An operand may carry "old": true inside a sequence: the object an earlier step built from the same specification.
 X is an int or the hex string of a float; Q is [[category, unit, exponent], ...] (the ordered dict).
 """
 import math
@@ -172,6 +174,8 @@ def _build(spec):
         elif spec["kind"] == "nd":
             vs = np.array(vs, dtype=np.int64 if (vs and all(isinstance(v, int) for v in vs)) else np.float64)
         return Array.CreateWithQuantity(quantity(spec["q"]), values=vs)
+    if t == "array0":
+        return Array.CreateWithQuantity(quantity(spec["q"]), values=val(spec["x"]))
     if t == "junk":
         if spec["w"] == "npbool":
             return np.bool_(True)   # not a numpy.number: IsNumber says no
@@ -190,6 +194,8 @@ def model_operand(spec):
         return dict(t="scalar", q=qs(spec["q"]), v=qstr(exact_of(spec["x"])))
     if t == "array":
         return dict(t="array", q=qs(spec["q"]), kind=spec["kind"], vs=[qstr(exact_of(x)) for x in spec["xs"]])
+    if t == "array0":
+        return dict(t="array0", q=qs(spec["q"]), v=qstr(exact_of(spec["x"])))
     return dict(t="junk")
 
 
@@ -214,6 +220,9 @@ def render(spec):
     if t == "junk":
         return {"str": "'x'", "none": "None", "list": "[1.0, 2.0]", "npbool": "numpy.bool_(True)"}[spec["w"]]
     q = spec["q"]
+    if t == "array0":
+        return "Array.CreateWithQuantity(ObtainQuantity(OrderedDict(%r)), values=%r)" % (
+            [(c, [u, e]) for c, u, e in q], val(spec["x"]))
     if t == "scalar":
         if len(q) == 1 and int(q[0][2]) == 1:
             return "Scalar(%r, %r, %r)" % (val(spec["x"]), q[0][1], q[0][0])
@@ -292,6 +301,27 @@ def run_binop(f, a, b, objs=None):
     return canon(r)
 
 
+def run_rdiv(x, k):
+    """`x.__rdiv__(k)` called directly (the legacy reflected operator), canonicalised; never raises"""
+    np = _np()
+    try:
+        X, K_ = build(x), build(k)
+    except Exception as e:
+        return dict(err="other", detail="operand does not build: %r" % (e,))
+    try:
+        with warnings.catch_warnings():
+            warnings.simplefilter("ignore")
+            with np.errstate(all="ignore"):
+                r = X.__rdiv__(K_)
+    except Exception as e:
+        return dict(err=err_kind(e), exc=type(e).__name__)
+    return canon(r)
+
+
+def rdiv_case(x, k):
+    return {"op": "rdiv", "self": model_operand(x), "other": model_operand(k), "_t": dict(f="div", a=k, b=x, x=x, k=k)}
+
+
 def binop_case(f, a, b):
     return dict(op="binop", f=f, defers=True, a=model_operand(a), b=model_operand(b), _t=dict(f=f, a=a, b=b))
 
@@ -304,6 +334,8 @@ def show(c):
     t = c["_t"]
     if c["op"] == "binop":
         return "%s %s %s" % (render(t["a"]), OPSIGN[t["f"]], render(t["b"]))
+    if c["op"] == "rdiv":
+        return "(%s).__rdiv__(%s)" % (render(t["x"]), render(t["k"]))
     return t
 
 
@@ -397,7 +429,7 @@ def exact_floor_case(t):
 
     a, b = t["a"], t["b"]
     plain = [s_ for s_ in (a, b) if s_["t"] in ("num", "nd")]
-    objs = [s_ for s_ in (a, b) if s_["t"] in ("scalar", "array")]
+    objs = [s_ for s_ in (a, b) if s_["t"] in ("scalar", "array", "array0")]
     if len(plain) != 1 or len(objs) != 1:
         return False
     k = plain[0]
@@ -728,14 +760,17 @@ def count(ctx, key):
 
 def branch_key(c, io):
     t = c["_t"]
-    if c["op"] != "binop":
+    if c["op"] not in ("binop", "rdiv"):
         return c["op"] + ("/" + io["err"] if "err" in io else "/ok")
 
     def sh(s):
+        if s["t"] == "array0":
+            return "A<number>"
         if s["t"] == "array":
             return "A" + s["kind"] + ("0" if not s["xs"] else "")
         if s["t"] == "num":
             return "k" + ("np" if s["ty"] in NP_TYPES else "py")
         return {"scalar": "S", "nd": "ND", "junk": "J"}[s["t"]]
 
-    return "%s %s %s -> %s" % (sh(t["a"]), t["f"], sh(t["b"]), io["err"] if "err" in io else io["ok"]["t"])
+    return "%s %s %s -> %s" % (sh(t["a"]), "__rdiv__" if c["op"] == "rdiv" else t["f"], sh(t["b"]),
+                               io["err"] if "err" in io else io["ok"]["t"])
